@@ -226,3 +226,31 @@ let fam_isconv () =
 let guard f () = (try f () with Out_of_regime -> inexact_seen := true);
   if !inexact_seen then (Buffer.clear buf; out "NOTE_OUT_OF_REGIME")
 let () = families := !families @ [ ("rosmock", guard fam_rosmock); ("bemock", guard fam_bemock); ("nerr", guard fam_nerr); ("isconv", fam_isconv) ]
+
+(* ratec L ncells nproc {kind size nthird}* by_label T[ncells] P[ncells] vals[ncells*nparams] *)
+let fam_ratec () =
+  let l = int () in let ncells = int () in let nproc = int () in
+  let specs = times nproc (fun () -> let k = int () in let s = int () in let nt = int () in (k, s, nt)) in
+  let _by_label = int () in
+  let tt = Array.of_list (ints ncells) in let pp = Array.of_list (ints ncells) in
+  let nparams = List.fold_left (fun a (_, s, _) -> a + s) 0 specs in
+  let vals = ints (ncells * nparams) in
+  let ly = layout_of l in
+  let conds c = int_of_nat c in
+  let procs = List.mapi (fun r (k, s, nt) ->
+    let calc (c : int) (params : Obj.t list) : Obj.t =
+      (match k with
+       | 0 -> let base = q_of_int (1000000 * r + 1000 * tt.(c) + 7 * pp.(c)) in
+              mg (List.fold_left (fun acc (i, x) -> qadd acc (qmul (q_of_int (i + 1)) (qof x))) base
+                    (List.mapi (fun i x -> (i, x)) params))
+       | 1 -> mg (qmul (q_of_frac 1 2) (qof (List.hd params)))
+       | _ -> mg (q_of_int (3 + r))) in
+    let fixed (c : int) : Obj.t = mg (let rec pw n = if n = 0 then q1 else qmul (q_of_int tt.(c)) (pw (n - 1)) in pw nt) in
+    { rp_calc = calc; rp_size = nat_of_int s; rp_fixed = fixed }) specs in
+  let pst = to_storage_q ly ncells nparams q0 (List.map q_of_int vals) in
+  let size = int_of_nat (lay_size ly (nat_of_int ncells) (nat_of_int nproc)) in
+  let rc0 = List.init size (fun _ -> mg q0) in
+  let r = calc_rate_constants numQ ly procs (nat_of_int ncells) (nat_of_int nparams) conds pst rc0 in
+  out_qs r
+
+let () = families := !families @ [ ("ratec", fam_ratec) ]
